@@ -1172,8 +1172,12 @@ def FIBER(
     if show_progress:
         barra_progreso = tqdm(total=100)
 
+    def h_eff(h):
+        # effective length of a step: inside the step the power decays as exp(-alpha*z)
+        return h if alpha == 0 else (1 - np.exp(-alpha * h)) / alpha
+
     while True:
-        exp_NL = np.exp(1j * gamma * (h / 2) * np.abs(A) ** 2)
+        exp_NL = np.exp(1j * gamma * (h_eff(h) / 2) * np.abs(A) ** 2)
         exp_L = np.exp(D_op * h)
         A = exp_NL * ifft(
             exp_L * fft(exp_NL * A)
@@ -1192,7 +1196,7 @@ def FIBER(
     h = length - x_length
 
     if h != 0:
-        exp_NL = np.exp(1j * gamma * (h / 2) * np.abs(A) ** 2)
+        exp_NL = np.exp(1j * gamma * (h_eff(h) / 2) * np.abs(A) ** 2)
         exp_L = np.exp(D_op * h)
         A = exp_NL * ifft(exp_L * fft(exp_NL * A))
 
